@@ -10,6 +10,7 @@ import (
 	"fmt"
 	"reflect"
 	"sync"
+	"sync/atomic"
 )
 
 type generatorImpl[V any] interface {
@@ -21,7 +22,7 @@ type generatorImpl[V any] interface {
 type Generator[V any] struct {
 	impl    generatorImpl[V]
 	strOnce sync.Once
-	str     string
+	str     atomic.Value // string; read by value() while another goroutine may be inside String()
 }
 
 func newGenerator[V any](impl generatorImpl[V]) *Generator[V] {
@@ -32,10 +33,10 @@ func newGenerator[V any](impl generatorImpl[V]) *Generator[V] {
 
 func (g *Generator[V]) String() string {
 	g.strOnce.Do(func() {
-		g.str = g.impl.String()
+		g.str.Store(g.impl.String())
 	})
 
-	return g.str
+	return g.str.Load().(string)
 }
 
 // Draw produces a value from the generator.
@@ -70,7 +71,8 @@ func (g *Generator[V]) Draw(t *T, label string) V {
 }
 
 func (g *Generator[V]) value(t *T) V {
-	i := t.s.beginGroup(g.str, true)
+	label, _ := g.str.Load().(string) // as before: empty until String() has been called
+	i := t.s.beginGroup(label, true)
 	v := g.impl.value(t)
 	t.s.endGroup(i, false)
 	return v
